@@ -16,10 +16,13 @@ Modelled (real Python semantics unless stated otherwise):
 * Concrete-shape types for bounded stand-ins: ``TDiscTuple(n)`` (a tuple of n opaque disciplines), ``TNameTuple(n)`` (n symbolic names).
 * List comprehensions whose elements are arrays: over a concrete sequence the result is the concrete sequence of *the very arrays*
   (no copy: aliasing with the slots they were read from is kept); over a symbolic sequence with a filter, the comprehension is kept as a
-  conditional sequence (``CondSeq``) that may only be consumed by ``assert seq`` (truth = some element is kept) and ``sum(seq)``.
+  conditional sequence (``CondSeq``) that may only be consumed by ``assert seq`` / ``if seq`` (truth = some element is kept) and ``sum(seq)``;
+  ``d.get(k, ())`` in the filter of such a comprehension is the dict ``d[k]`` when the key is present and the empty tuple otherwise (``MaybeDict``).
 * ``sum(CondSeq of rank-2 arrays)``: Python's left fold ``0 + e_0 + e_1 ...`` over the kept elements, expressed as the conditional fold
   ``cfold(S, C, n)`` over the source sequence (adding nothing for the skipped ones) - the two are equal by induction on n; element shapes
   must agree (``ValueError`` otherwise: numpy broadcasting of unequal shapes is not modelled beyond equal shapes).
+* ``outer[k] = inner`` for a dict of dicts: the stored dict object becomes the dict of that slot (later mutations through the local name
+  are written back: Python reference semantics for an object stored in a single slot).
 * dict subscripts inside a comprehension element (no forking possible there): the obligation ``comprehension-key-present`` is generated
   when the key is not known to be present (a KeyError inside the comprehension is then a failed obligation).
 """
@@ -86,11 +89,25 @@ class TNameTuple(T):
         return tuple(SV(st.fresh_const(f"{hint}_{i}", StrS), TStr) for i in range(self.n))
 
 
+def some_kept(n, cond_at):
+    """some element t < n satisfies the filter (one construction for the model and for the specifications)"""
+    t = z3.Int("t!cs")
+    return z3.Exists([t], z3.And(0 <= t, t < n, cond_at(t)))
+
+
 class CondSeq:
     """[val(t) for t in seq if cond(t)] over a symbolic sequence, elements = rank-2 real arrays (embedded terms)."""
 
     def __init__(self, n, cond_at, val_at):
         self.n, self.cond_at, self.val_at = n, cond_at, val_at
+
+
+class MaybeDict:
+    """d.get(k, ()) inside a comprehension element (no fork possible there): the dict d[k] when ``present``, the empty tuple otherwise;
+    only membership tests are supported on it."""
+
+    def __init__(self, present, ref):
+        self.present, self.ref = present, ref
 
 
 class C09Models:
@@ -120,6 +137,23 @@ class C09Models:
                     rec.append((m, st.ghost.get("c09_cond")))
             return o.v.project(st, o.vals[kt], (cont, kt, "dict"))
         return NotImplemented
+
+    # ------------------------------------------------------------------ a dict stored in a dict of dicts stays the dict of that slot
+    def setitem(self, ex, cont, key, v, lineno):
+        """outer[k] = inner for a dict of dicts (value-embedded): the stored dict object becomes *the dict of that slot*, so that later
+        mutations through the local name are written back (Python reference semantics, as long as it is stored in that single slot)."""
+        if not (_on(ex) and isinstance(cont, Ref) and isinstance(v, Ref)):
+            return NotImplemented
+        st = ex.st
+        o, h = st.heap[cont.id], st.heap[v.id]
+        if not (isinstance(o, DictObj) and isinstance(h, DictObj) and not o.is_empty_literal and isinstance(o.v, TDict) and h.origin is None):
+            return NotImplemented
+        ex.coerce(v, o.v)  # (types an empty literal)
+        kt = o.k.embed(st, key)
+        o.set(st, kt, o.v.embed(st, v))
+        ex.writeback(o)
+        h.origin, h.ty = (cont, kt, "dict"), o.v
+        return True
 
     # ------------------------------------------------------------------ CouplingStructure(disciplines)
     def construct(self, ex, cv, args, kwargs, lineno):
@@ -223,8 +257,24 @@ class C09Models:
 
     def truth(self, ex, v):
         if isinstance(v, CondSeq):
-            t = z3.Int("t!cs")
-            return z3.Exists([t], z3.And(0 <= t, t < v.n, v.cond_at(t)))
+            return some_kept(v.n, v.cond_at)
+        return NotImplemented
+
+    def call_method(self, ex, recv, name, args, kwargs, lineno):
+        # d.get(k, ()) on a dict of dicts inside a comprehension element
+        st = ex.st
+        if not (_on(ex) and ex.no_fork and name == "get" and len(args) == 2 and args[1] == () and not kwargs and isinstance(recv, Ref)):
+            return NotImplemented
+        o = st.heap[recv.id]
+        if not isinstance(o, DictObj) or o.is_empty_literal or not isinstance(o.v, TDict):
+            return NotImplemented
+        kt = o.k.embed(st, args[0])
+        return MaybeDict(o.member[kt], o.v.project(st, o.vals[kt], (recv, kt, "dict")))
+
+    def contains(self, ex, cont, item, lineno):
+        if isinstance(cont, MaybeDict):
+            inner = ex.st.heap[cont.ref.id]
+            return SV(z3.And(cont.present, inner.member[inner.k.embed(ex.st, item)]), TBool)
         return NotImplemented
 
     def call_builtin(self, ex, name, args, kwargs, lineno, node=None):
@@ -235,8 +285,8 @@ class C09Models:
         st = ex.st
         v = args[0]
         t, t2 = z3.Ints("t!sm t2!sm")
-        some = z3.Exists([t], z3.And(0 <= t, t < v.n, v.cond_at(t)))
-        if not st.decide(some):
+        some = some_kept(v.n, v.cond_at)
+        if not any(f.eq(some) for f in st.pc) and not st.decide(some):  # (already known on the path after `if seq:`)
             return 0  # sum([]) == 0
         # all the kept elements have the same shape (else: ValueError of the element-wise addition / broadcasting, not modelled further)
         same = z3.ForAll([t, t2], z3.Implies(z3.And(0 <= t, t < v.n, v.cond_at(t), 0 <= t2, t2 < v.n, v.cond_at(t2)),
